@@ -1,1 +1,6 @@
 import XvcRepo.Model
+import XvcRepo.Lemmas
+import XvcRepo.Cache
+import XvcRepo.Props.C02
+import XvcRepo.Props.C17
+import XvcRepo.Props.C01
